@@ -1168,3 +1168,39 @@ package cache
 //@   loop 1 invariant [C13.sm.restore.inv.entries] forall j int :: p0 <= j && j < gobPos() ==> recSMStored(c.syncMap, j)
 //@   loop 1 invariant [C13.sm.restore.inv.rep] sRepOK(c.syncMap)
 //@   replay restore backend:=syncmap
+
+// ---------------------------------------------------------------------------------------------------
+// gob.go: the gob types hash (C14). Representation invariant: gobTypesHash is the XOR, over the set of registered
+// types, of the per-type fingerprint typefp(t) - so it is a function of the SET of registered types (independent
+// of registration order and of repeated registration, given that XOR is associative and commutative). typefp(t)
+// is what a FRESH hasher yields after the type's name and recursiveTypeHash(t) were written to it.
+// ---------------------------------------------------------------------------------------------------
+
+//@ def hashInv() := gobTypesHash == xorfold(gobTypes) && (forall t reflect.Type :: has(gobTypes, t) ==> gobTypes[t])
+
+// recursiveTypeHash walks the type with reflection; its effect on the hasher is taken as a function of the
+// hasher's state and the type (reflection is deterministic), provided it starts with an empty visited set.
+//@ func recursiveTypeHash
+//@   assumed
+//@   requires t != nil && h != nil && met != nil && len(met) == 0 && met != gobTypes
+//@   ensures hst(h) == rth(old(hst(h)), t)
+//@   ensures keysKept(gobTypes)
+//@   modifies G|hst M|map[reflect.Type]bool|* G|alloc
+
+//@ func GobRegister
+//@   props C14
+//@   requires hashInv()
+//@   requires forall j int :: 0 <= j && j < len(values) ==> values[j] != nil
+//@   ensures [C14.hash.inv] hashInv()
+//@   loop 1 invariant [C14.reg.inv] hashInv() && -1 <= rangeindex && rangeindex < len(values)
+//@   replay gobhash
+
+//@ func GobTypesHashReset
+//@   props C14
+//@   ensures [C14.reset.inv] hashInv()
+//@   replay gobhash
+
+//@ func GobTypesHash
+//@   props C14
+//@   ensures [C14.hash.get] result == gobTypesHash
+//@   pure
